@@ -512,7 +512,11 @@ func runLoadBehaviour(e *env, rep *vfutil.Report, lb *loadBehaviour, only int, a
 	// unit is chosen so that the model limit corresponds to it)
 	if handlerEvery > 0 && only < 0 {
 		for li, l := range lb.Loads {
-			if (li+len(lb.Steps))%handlerEvery == 0 && l.Limit >= 2 {
+			if l.Limit < 2 {
+				continue
+			}
+			handlerSeen++
+			if handlerSeen%handlerEvery == 0 {
 				runHandlerEntry(e, rep, lb, li)
 			}
 		}
@@ -520,6 +524,8 @@ func runLoadBehaviour(e *env, rep *vfutil.Report, lb *loadBehaviour, only int, a
 }
 
 const handlerLimit = 1024 * 1024 // synctree.batchSize
+
+var handlerSeen int // eligible entries seen so far (every handlerEvery-th is served through the handler)
 
 // runHandlerEntry builds responder and requester with a byte unit that maps the entry's model limit
 // to the handler's fixed limit, serves the requester's real full-sync request through
